@@ -448,10 +448,8 @@ impl<'a, R: Clone> AsyncGlobalCache<'a, R> {
 
         let mut order = self.order.lock();
 
-        // Check if another task already inserted this key while we were computing
-        if self.is_already_key_inserted(key, &mut order) {
-            return;
-        }
+        // If the key is already cached, the new value replaces the old one
+        self.remove_existing_entry(key, &mut order);
 
         // Handle entry-count limits
         self.handle_entry_limit_eviction(&mut order);
@@ -463,47 +461,20 @@ impl<'a, R: Clone> AsyncGlobalCache<'a, R> {
         self.cache.insert(key.to_string(), (value, timestamp, 0));
     }
 
-    /// Checks if a key is already present in the cache and updates its position in the eviction order
-    /// if the eviction policy is Least Recently Used (LRU) or Adaptive Replacement Cache (ARC).
+    /// Removes the entry currently stored under `key`, if any, together with its position
+    /// in the eviction order, so that the value being inserted replaces it.
+    ///
+    /// An insert always stores the value it was given (last store wins), exactly like the
+    /// sync caches: the replaced entry's timestamp, frequency and queue position are
+    /// discarded and the new entry starts fresh at the back of the queue.
     ///
     /// # Parameters
-    /// - `key`: A reference to the key being checked as a `&str`.
-    /// - `order`: A mutable reference to a locked `VecDeque<String>` wrapped in a `MutexGuard`.
-    ///    This represents the ordered list of keys, used to determine eviction order.
-    ///
-    /// # Returns
-    /// - `true` if the key is already present in the cache and was processed for eviction policy.
-    /// - `false` if the key was not found in the cache.
-    ///
-    /// # Behavior
-    /// 1. If the key exists in the cache:
-    ///    - If the eviction policy is `LRU` or `ARC`, the key's position in the eviction list (`order`)
-    ///      is updated to reflect that it was recently accessed by removing the old position and appending
-    ///      the key to the back of the `VecDeque`.
-    ///    - The function returns `true`, indicating the key is already in the cache.
-    /// 2. If the key does not exist in the cache:
-    ///    - The function returns `false`, allowing the caller to handle the key insertion.
-    ///
-    /// # Eviction Policies
-    /// - `LRU` (Least Recently Used): Keys recently accessed should stay in the cache,
-    ///   and their access order is updated.
-    /// - `ARC` (Adaptive Replacement Cache): Performs similarly to LRU but may enhance
-    ///   replacement policies in specific cases.
-    fn is_already_key_inserted(
-        &self,
-        key: &str,
-        order: &mut MutexGuard<RawMutex, VecDeque<String>>,
-    ) -> bool {
-        if self.cache.contains_key(key) {
-            // Key already exists, just update the order if LRU or ARC
-            if self.policy == EvictionPolicy::LRU || self.policy == EvictionPolicy::ARC {
-                order.retain(|k| k != key);
-                order.push_back(key.to_string());
-            }
-            // Don't insert again
-            return true;
+    /// - `key`: The key about to be inserted.
+    /// - `order`: The locked order queue.
+    fn remove_existing_entry(&self, key: &str, order: &mut MutexGuard<RawMutex, VecDeque<String>>) {
+        if self.cache.remove(key).is_some() {
+            order.retain(|k| k != key);
         }
-        false
     }
 
     /// Finds the key with minimum frequency for LFU eviction.
@@ -805,10 +776,8 @@ impl<'a, R: Clone + crate::MemoryEstimator> AsyncGlobalCache<'a, R> {
 
         let mut order = self.order.lock();
 
-        // Check if another task already inserted this key while we were computing
-        if self.is_already_key_inserted(key, &mut order) {
-            return;
-        }
+        // If the key is already cached, the new value replaces the old one
+        self.remove_existing_entry(key, &mut order);
 
         // Check memory limit first (if specified)
         if let Some(max_mem) = self.max_memory {
